@@ -206,18 +206,35 @@ def check_jac(case):
         P = sim.problem1d(c)
     neq, n = len(P.cons), P.n
     solver = cases.build_integrator(case["integ"], P.mesh, P.disc)
-    J = solver.calc_jacobian(P.field.copy())
-    require(J is not None and np.asarray(J).shape == (neq * n, neq * n), "jacobian-shape", "calc_jacobian returns shape %r for %d equations x %d cells" % (np.shape(J), neq, n))
-    J = np.asarray(J, dtype=float)
-    require(np.all(np.isfinite(J)), "jacobian-finite", "Jacobian has non-finite entries on a smooth admissible state")
     qsc, a = sim.state_scales(P.smd, P.prim)
+    err1 = _judge_jacobian(solver, P, P.field.copy(), qsc, neq, n, case, "first call")
+    # a second call on the SAME solver object with another state: the Jacobian used must be the derivative at that state (no stale cache)
+    prim2 = [np.roll(np.asarray(x, dtype=float), 1) for x in P.prim]
+    if P.smd["name"] in ("euler1d", "shallowwater"):
+        prim2[0] = prim2[0] * 1.3
+    else:
+        prim2[0] = prim2[0] * 1.2
+    f2 = cases.build_field(P.model, P.mesh, cases.cons_from_prim(P.smd, prim2))
+    err2 = _judge_jacobian(solver, P, f2, qsc, neq, n, case, "second call on the same solver, other state")
+    target(max(err1, err2), "jacobian-error")
+    return dict(nontrivial=True, labels=["model:" + md["name"], "flux:%s" % case["flux"], "num:" + case["num"]["name"], "bc:" + case["bc"]])
+
+
+def _judge_jacobian(solver, P, field, qsc, neq, n, case, what):
+    md = case["model"]
+    J = solver.calc_jacobian(field.copy())
+    if J is None:
+        J = getattr(solver, "jacobian", None)
+    require(J is not None and np.asarray(J).shape == (neq * n, neq * n), "jacobian-shape", "calc_jacobian returns shape %r for %d equations x %d cells" % (np.shape(J), neq, n))
+    J = np.array(J, dtype=float)
+    require(np.all(np.isfinite(J)), "jacobian-finite", "Jacobian has non-finite entries on a smooth admissible state")
     ref = np.zeros_like(J)
     onesided = np.zeros_like(J)          # forward minus backward difference quotient: ~h*f'' where smooth, a finite jump at a kink
-    r0 = [np.array(x, dtype=float) for x in P.disc.rhs(P.field.copy())]
+    r0 = [np.array(x, dtype=float) for x in P.disc.rhs(field.copy())]
     for i in range(n):
         for q in range(neq):
             h = 1e-5 * qsc[q]
-            fp, fm = P.field.copy(), P.field.copy()
+            fp, fm = field.copy(), field.copy()
             fp.data[q][i] += h
             fm.data[q][i] -= h
             rp = [np.array(x, dtype=float) for x in P.disc.rhs(fp)]
@@ -237,10 +254,9 @@ def check_jac(case):
         # u and c, where u-c of both states and of their Roe average coincide) one-sided and central differences legitimately differ
         raise Skip("space operator not differentiable at this state (one-sided difference quotients differ)")
     err = float(np.max(np.abs(Jn - Rn))) / mx
-    require(err <= 1e-4 + kink, "jacobian-is-derivative", "Jacobian differs from the central-difference derivative of the space operator by %.3g x max|J| (%s/%s, %s, bc %s, n=%d)"
-            % (err, md["name"], case["flux"], case["num"]["name"], case["bc"], n))
-    target(err, "jacobian-error")
-    return dict(nontrivial=True, labels=["model:" + md["name"], "flux:%s" % case["flux"], "num:" + case["num"]["name"], "bc:" + case["bc"]])
+    require(err <= 1e-4 + kink, "jacobian-is-derivative", "Jacobian (%s) differs from the central-difference derivative of the space operator by %.3g x max|J| (%s/%s, %s, bc %s, n=%d)"
+            % (what, err, md["name"], case["flux"], case["num"]["name"], case["bc"], n))
+    return err
 
 
 SUBCHECKS = [
